@@ -130,6 +130,14 @@ func apply(api string, args []cty.Value, x J) (cty.Value, error) {
 	case "UnmarkDeep":
 		v, _ := args[0].UnmarkDeep()
 		return v, nil
+	case "IsWhollyKnown":
+		return cty.BoolVal(args[0].IsWhollyKnown()), nil
+	case "IsKnown":
+		return cty.BoolVal(args[0].IsKnown()), nil
+	case "IsNull":
+		return cty.BoolVal(args[0].IsNull()), nil
+	case "HasWhollyKnownType":
+		return cty.BoolVal(args[0].HasWhollyKnownType()), nil
 	case "UnknownAsNull":
 		return cty.UnknownAsNull(args[0]), nil
 	}
